@@ -16,7 +16,7 @@ from copula_models import INF, elit, elist, idxlit
 
 PROP = "C11"
 PROPERTY_FILE = "Properties/C11.v"
-GEN_DEPS = []
+GEN_DEPS = ["GenC12Mass"]     # Proofs/C11_Increasing.v reuses order lemmas of Proofs/C12_Mass.v, which imports the generated masses
 RULE = ("cases: (copula, parameters, argument vector / rectangle / conditional argument); copulas = independent, completely dependent, "
         "Clayton with theta in {0.05..8} and eta in [0,1] incl. 0 and 1; vectors from a dyadic lattice {-inf,-3,-1.25,-0.5,0,0.25,1,2.5,"
         "inf}^d, d = 2, 3, every sign pattern, zero and infinite entries (vectors whose entries are ALL infinite are outside the model: the "
@@ -35,29 +35,30 @@ MODELLED = [
 ASSUMPTIONS = [
     "Clayton: 0 < theta; 0 <= eta <= 1 for the increasing theorems, 0 < eta < 1 for the inverse (for eta in {0,1} the conditional "
     "distribution is constant on one half-line and not invertible there)",
-    "increasing theorems: rectangles with at least one side finite at both ends (no all-infinite corner)",
+    "increasing theorems: rectangles with at least one side finite at both ends (no all-infinite corner: there the values are +-inf)",
 ]
 THEOREM_NOTES = {
-    "C11_dep_increasing_partial": "d = 2 proved; d = 3 (copula3_ok (dep RNum)) is checked exactly by the oracle on all lattice rectangles only",
-    "C11_clayton_2_increasing_partial": "proved for rectangles with finite end points inside one open quadrant (all four quadrants, every theta>0, "
-                                        "eta in [0,1]); the assembly across quadrants / end points 0 and +-inf and d = 3 are oracle-checked only, "
-                                        "so C12_nonneg_* is not yet instantiated for Clayton by a theorem",
-    "C11_conditional_cdf": "not a theorem: monotonicity and limits 0/1 of the conditional distribution are oracle checks",
-    "C11_mixed_derivative_partial": "d = 2, open positive quadrant: x_first_derivative = d2F/dudv; other quadrants and d = 3 by finite differences",
+    "C11_mixed_derivative_partial": "d = 2, all four open quadrants: d2F/dudv = sign(u)sign(v) * x_first_derivative(u,v); d = 3 (third mixed partial) "
+                                    "is checked by finite differences only",
     "C11_mixed_derivative_times_product_refuted": "finding F-C11-1: the stated contract (mixed partial times the product of the arguments) is false of "
-                                                  "the code; the oracle reports it on the implementation by finite differences",
+                                                  "the code; the oracle reports it on the implementation by finite differences (matches_known: only the "
+                                                  "recorded sign(prod u) * mixed-partial behaviour is absorbed)",
+    "C11_conditional_distribution": "x <> 0 and eps <> 0 (np.power(0, theta) = 0 is not Rpower): the values at x = +-inf / eps = 0 are oracle checks; right "
+                                    "inverse and limits need 0 < eta < 1 (for eta in {0,1} the function is constant on a half-line)",
+    "all-infinite vectors": "copula2_ok / copula3_ok quantify over rectangles with a finite side; on all-infinite vectors the code returns +-inf (indep_x / "
+                            "dep_x model that, exact correspondence) and nan for Clayton with eta in {0,1} (not modelled)",
 }
-LEVEL_TEXT = ("Proof: 8 Coq theorems. For the independent, completely dependent and Clayton Levy copulas (every theta > 0, every eta) in "
-              "dimension 2 and 3: the copula vanishes when an argument is 0 and its one-dimensional margins, computed with the code's "
-              "margin operator over the +-inf corners, are the identity. The independent copula (d = 2, 3) and the dependent copula (d = 2) "
-              "give a non-negative volume to every rectangle of (-inf,inf]^d with a finite side; the Clayton copula does so inside each open "
-              "quadrant (monotone partial derivative + mean value theorem, Coquelicot). The closed-form inverse inverts the Clayton "
-              "conditional distribution for both signs of eps and x. x_first_derivative is the mixed partial derivative in the positive "
-              "quadrant, hence NOT the mixed partial times the product of its arguments (refuted, finding F-C11-1). Models are tied to "
-              "the code on every run: exact vm_compute correspondence for the piecewise-linear copulas and the volume/margin operators, "
-              "Interval-certified case lemmas (1e-9) for every Clayton entry point over all sign patterns incl. infinite entries. "
-              "Partial: Clayton across quadrants / d = 3 and dependent d = 3 increasingness, and the distribution-function property of the "
-              "conditional distribution, are brute-force oracle checks on a sign-complete lattice.")
+LEVEL_TEXT = ("Proof: 10 Coq theorems. The independent, completely dependent and Clayton Levy copulas (every theta > 0, eta in [0,1]) are Levy "
+              "copulas in dimension 2 and 3: they vanish when an argument is 0, their one-dimensional margins computed with the code's margin "
+              "operator are the identity, and EVERY rectangle of (-inf,inf]^d with a finite side -- across quadrants/octants, with end points 0 "
+              "and +-inf -- has non-negative volume (Clayton: sign of the finite differences of t^(-1/theta) by the mean value theorem, assembled "
+              "over the orthants with weights eta, 1-eta >= 0; dependent: min of three on the positive octant plus reflection). The Clayton "
+              "conditional distribution is a distribution function (range [0,1], non-decreasing, limits 0/1) and the closed-form inverse is its "
+              "left and right inverse. x_first_derivative is sign(u)sign(v) times the mixed partial in all four quadrants (d = 2), hence NOT "
+              "the mixed partial times the product of its arguments (refuted, finding F-C11-1). Models are tied to the code on every run: exact "
+              "vm_compute correspondence for the piecewise-linear copulas (incl. the +-inf values on all-infinite vectors) and the volume/margin "
+              "operators, Interval-certified case lemmas (1e-9) for every Clayton entry point and its pair margins. Partial: the d = 3 mixed "
+              "derivative, the values of the conditional distribution at x = +-inf / eps = 0, and Clayton on all-infinite vectors are oracle-only.")
 LEVEL_NOTE = ("Trusted: Coq kernel, vm_compute, Interval's reflexive checker, standard real/classical axioms (Coquelicot); hand models "
               "of the copula formulas (tied by the case checks); numpy float semantics.")
 TECHNIQUE = "Coq proof over R (Coquelicot, lra/nra, MVT) + vm_compute correspondence (Q) + Interval case lemmas (R)"
@@ -78,7 +79,8 @@ Ltac decide_tests := repeat match goal with
   | |- context[Rleb ?a ?b] => first [rewrite (proj2 (Rleb_true a b)) by lra | rewrite (proj2 (Rleb_false a b)) by lra]
   | |- context[Reqb ?a ?b] => first [rewrite (proj2 (Reqb_true a b)) by lra | rewrite (Reqb_false a b) by lra]
   end.
-Ltac cl := unfold clayton, clayton_sum, clayton_cond, clayton_inv, clayton_fun_b, clayton_fun_c, sgn, clayton_xderiv2;
+Ltac cl := unfold margin, complement, scatter; cbn -[Rpower Rabs clayton];
+  unfold clayton, clayton_sum, clayton_cond, clayton_inv, clayton_fun_b, clayton_fun_c, sgn, clayton_xderiv2;
   cbn -[Rpower Rabs]; decide_tests; cbn -[Rpower Rabs]; unfold Rpower.
 """
 
@@ -173,6 +175,20 @@ def correspond(res):
                         vol_cases.append(f"({elist(a)}, {elist(b)}, {qlit(v)})")
                 elif not (v >= 0):   # all sides reach infinity: +inf is fine, negative / nan is not
                     viol("negative (or nan) volume of a rectangle", kind="increasing", copula=desc, a=list(a), b=list(b), got=v)
+        # all-infinite argument vectors: the extended value the (repaired) code returns (C11-4)
+        x_cases = []
+        for d in (2, 3):
+            for us in itertools.product([-INF, INF], repeat=d):
+                with np.errstate(all="ignore"):
+                    v = float(cop(np.array(us)))
+                res.count(("xval", ck, us), kind=f"{ck} all-infinite vector d={d}")
+                if math.isnan(v):
+                    viol("copula value is nan on an all-infinite vector", kind="value", copula=desc, us=list(us), got=v)
+                    continue
+                x_cases.append(f"({elist(us)}, {elit(v)})")
+        groups.append((f"{ck}_xval", "list (ext Q) * ext Q",
+                       f"fun c => match {ck}_x QNum (fst c), snd c with NInf, NInf => true | PInf, PInf => true | Fin a, Fin b => Qeq_bool a b | _, _ => false end",
+                       x_cases))
         groups.append((f"{ck}_val", "list (ext Q) * Q", f"fun c => Qeq_bool ({ck} QNum (fst c)) (snd c)", val_cases))
         groups.append((f"{ck}_vol", "list (ext Q) * list (ext Q) * Q", f"fun c => match c with (a, b, v) => Qeq_bool (volume QNum ({ck} QNum) a b) v end", vol_cases))
         groups.append((f"{ck}_margin", "nat * list nat * list (ext Q) * Q",
@@ -211,6 +227,15 @@ def correspond(res):
                     res.count(("margin", str(desc), d, k, u), nontrivial=u != 0, kind=f"clayton margin d={d}")
                     if not abs(v - u) <= 1e-9 * max(1.0, abs(u)):
                         viol("one-dimensional margin is not the identity", kind="margin", copula=desc, dim=d, indices=[k], u=[u], got=v)
+            # pair margins of the 3-d copula through the generic margin operator (C11-5)
+            if d == 3:
+                for (i, j) in ((0, 1), (0, 2), (1, 2)):
+                    g2 = margin(cop, [i, j], 3)
+                    for (u, v) in ((1.0, 2.5), (-0.5, 0.25), (-3.0, -1.25), (2.5, -0.5)):
+                        with np.errstate(all="ignore"):
+                            val = float(g2(np.array([u, v])))
+                        res.count(("pairmargin", str(desc), i, j, u, v), kind="clayton pair margin d=3")
+                        iv_cases.append(f"Rabs (margin RNum (clayton {TH} {ET}) [{i}%nat; {j}%nat] 3 [Fin {rlit(u)}; Fin {rlit(v)}] - {rlit(val)}) <= {rlit(tol_of(val))}")
             # rectangles (brute force)
             ivs = [(a, b) for a, b in itertools.combinations(LATTICE, 2)]
             rects = list(itertools.product(ivs, repeat=d))
@@ -276,14 +301,15 @@ def correspond(res):
                 viol("x_first_derivative is not the mixed partial derivative times the product of its arguments", kind="xfd", finding="F-C11-1",
                      copula=desc, u=[u, v], x_first_derivative=xfd, mixed_partial_fd=d2, mixed_partial_times_product=claim,
                      equals_signed_mixed_partial=bool(abs(xfd - math.copysign(1, u * v) * d2) <= 1e-4 * abs(xfd)))
-        for (u, v, w) in [(1.5, 0.8, 0.6), (-1.2, 0.4, 2.0), (-0.3, -0.9, 1.1)]:
+        for (u, v, w) in [(1.0, 1.1, 0.9), (-1.2, 1.1, 1.3), (-0.9, -1.0, 1.05), (1.5, 0.8, 0.6)]:
             with np.errstate(all="ignore"):
                 xfd = float(cop.x_first_derivative(np.array([u, v, w])))
             h = [1e-2 * abs(t) for t in (u, v, w)]
             F = lambda p: float(cop(np.array(p)))
             d3 = sum(s1 * s2 * s3 * F((u + s1 * h[0], v + s2 * h[1], w + s3 * h[2])) for s1 in (1, -1) for s2 in (1, -1) for s3 in (1, -1)) / (8 * h[0] * h[1] * h[2])
             res.count(("xfd3", str(desc), u, v, w), kind="clayton mixed derivative d=3")
-            if et in (0.0, 1.0) and abs(d3) < 1e-12:
+            if abs(d3) < 1e-4 or abs(xfd) < 1e-4:
+                res.bump("xfd3_skipped_ill_conditioned_finite_difference", 1)   # third difference of a nearly flat function: noise
                 continue
             claim = d3 * u * v * w
             if not abs(xfd - claim) <= 5e-3 * max(abs(claim), abs(xfd)):
